@@ -130,7 +130,9 @@ func c15DBTypes(d string) []string {
 		}
 		return out
 	}
-	return []string{"integer", "int", "bigint", "tinyint", "real", "double", "float", "numeric", "numeric(10,2)", "decimal(10,5)", "text", "varchar(255)", "character(20)", "blob", "boolean", "bool", "date", "datetime", "json", "uuid", "varchar", "clob"}
+	return []string{"integer", "int", "bigint", "tinyint", "real", "double", "float", "numeric", "numeric(10,2)", "decimal(10,5)", "text", "varchar(255)", "character(20)", "blob", "boolean", "bool", "date", "datetime", "json", "uuid", "varchar", "clob",
+		// type names of several words, with and without a size
+		"varying character", "varying character(255)", "native character", "native character(70)", "double precision", "unsigned big int", "nchar(55)", "nvarchar(100)", "int2", "int8", "smallint", "mediumint"}
 }
 
 // c15Invalid: parameter values the database itself rejects (the grid is not type-aware otherwise).
@@ -747,5 +749,6 @@ func c15Constructed(dialect string) []schema.Type {
 			&mysql.BitType{T: "bit", Size: 1}, &schema.FloatType{T: "float"}, &schema.FloatType{T: "double"},
 		}
 	}
-	return []schema.Type{&schema.StringType{T: "text"}, &schema.DecimalType{T: "numeric"}, &schema.DecimalType{T: "decimal", Precision: 10, Scale: 5}, &schema.FloatType{T: "real"}, &schema.BinaryType{T: "blob"}}
+	return []schema.Type{&schema.StringType{T: "text"}, &schema.DecimalType{T: "numeric"}, &schema.DecimalType{T: "decimal", Precision: 10, Scale: 5}, &schema.FloatType{T: "real"}, &schema.BinaryType{T: "blob"},
+		&schema.StringType{T: "varying character", Size: 255}, &schema.StringType{T: "varying character"}, &schema.StringType{T: "native character", Size: 70}, &schema.FloatType{T: "double precision"}, &schema.IntegerType{T: "unsigned big int"}}
 }
